@@ -95,6 +95,15 @@ Lits == [
 \* op-assignment to one property whose value is also reachable elsewhere: every other
 \* property (and the other holder) keeps its value
 Sh == <<115, 104>>
+\* objects with pairwise equal values under different keys are unequal (also nested)
+EqKeys == [
+  k1 |-> <<EObj(<<Pair(EStr(<<120>>), EInt(1)), Pair(EStr(<<121>>), EInt(2))>>), EObj(<<Pair(EStr(<<120>>), EInt(1)), Pair(EStr(<<122>>), EInt(2))>>)>>,
+  k2 |-> <<EObj(<<Pair(EStr(<<107>>), EInt(0))>>), EObj(<<Pair(EStr(<<75>>), EInt(0))>>)>>,
+  k3 |-> <<EObj(<<Pair(EStr(<<>>), EInt(0))>>), EObj(<<Pair(EStr(<<32>>), EInt(0))>>)>>,
+  k4 |-> <<EList(<<EObj(<<Pair(EStr(<<97>>), EInt(1))>>)>>), EList(<<EObj(<<Pair(EStr(<<98>>), EInt(1))>>)>>)>>,
+  k5 |-> <<EObj(<<Pair(EStr(<<97>>), EInt(1)), Pair(EStr(<<98>>), EInt(2))>>), EObj(<<Pair(EStr(<<98>>), EInt(2)), Pair(EStr(<<97>>), EInt(1))>>)>>,
+  k6 |-> <<EObj(<<Pair(EStr(<<97>>), EInt(1)), Pair(EStr(<<98>>), EInt(2))>>), EObj(<<Pair(EStr(<<97>>), EInt(2)), Pair(EStr(<<98>>), EInt(1))>>)>>
+]
 OpAliasForms == {"dot", "idx", "istr", "dotint", "nested"}
 OpAliasStmt(f) ==
     CASE f = "dot"    -> SOpAssign(EProp(EVar(O), <<97>>), "+", EList(<<EInt(2)>>))
@@ -109,6 +118,7 @@ C12Params ==
     \cup { <<"order", p1 \o p2, "-">> : p1 \in Perms3, p2 \in Perms3 }
     \cup { <<"lit", <<>>, l>> : l \in DOMAIN Lits }
     \cup { <<"opalias", <<>>, f>> : f \in OpAliasForms }
+    \cup { <<"eqkeys", <<>>, kx>> : kx \in DOMAIN EqKeys }
 
 C12ProgOf(p) ==
     CASE p[1] = "hist" ->
@@ -129,6 +139,9 @@ C12ProgOf(p) ==
             \o [i \in 1 .. 3 |-> SAssign(EIndex(EVar(O), EStr(Keys[PermKeys[p[2][i]]])), EInt(p[2][i]))]
             \o [i \in 1 .. 3 |-> SAssign(EIndex(EVar(Q), EStr(Keys[PermKeys[p[2][3 + i]]])), EInt(p[2][3 + i]))]
             \o <<SPrint(EBin("==", EVar(O), EVar(Q)))>> \o Observe(O) \o Observe(Q)
+      [] p[1] = "eqkeys" ->
+            <<SDecl(EVar(O), EqKeys[p[3]][1]), SDecl(EVar(Q), EqKeys[p[3]][2]),
+              SPrint(EBin("==", EVar(O), EVar(Q))), SPrint(EBin("!=", EVar(O), EVar(Q))), SPrint(EBin("==", EVar(Q), EVar(O)))>>
       [] p[1] = "opalias" ->
             <<SDecl(EVar(Sh), EList(<<EInt(1)>>)),
               SDecl(EVar(O), EObj(<<Pair(EStr(<<97>>), EVar(Sh)), Pair(EStr(<<66>>), EVar(Sh)), Pair(EStr(<<98>>), EInt(4)),
@@ -166,5 +179,10 @@ AscendingKeys ==
         heap[i].k = "object" =>
             LET ps == ForPairs(VObj(i), heap) IN
             \A j \in 1 .. Len(ps) - 1 : BytesLess(ps[j][1].v.s, ps[j + 1][1].v.s)
-C12Laws == DotEqualsIndex /\ OrderIrrelevant /\ AscendingKeys
+EqKeysLaw ==
+    (Finished /\ pi[1] = "eqkeys") =>
+        LET t == IF pi[3] = "k5" THEN T_true ELSE T_false
+            f == IF pi[3] = "k5" THEN T_false ELSE T_true IN
+        status.k = "done" /\ out = <<t, f, t>>
+C12Laws == DotEqualsIndex /\ OrderIrrelevant /\ AscendingKeys /\ EqKeysLaw
 =============================================================================
